@@ -45,8 +45,8 @@ Proof.
   match goal with |- context [aget cid (n_circ ?n1)] => destruct (aget cid (n_circ n1)) as [c|] end; [|reflexivity].
   destruct (c_closing c); [reflexivity|].
   destruct (r_initial r).
-  - destruct (r_peers r); [reflexivity|]. destruct (r_tries r <? 1); [reflexivity|]. rewrite sic_creq. reflexivity.
-  - destruct (r_keys r); [reflexivity|]. destruct (r_tries r <? 1); [reflexivity|]. rewrite sext_creq. reflexivity.
+  - destruct (r_peers r); [reflexivity|]. destruct (r_tries r <? 1); [reflexivity|]. rewrite st_swallow, sic_creq. reflexivity.
+  - destruct (r_keys r); [reflexivity|]. destruct (r_tries r <? 1); [reflexivity|]. rewrite st_swallow, sext_creq. reflexivity.
 Qed.
 
 Definition is_extended (a : @action C) : bool :=
@@ -115,6 +115,7 @@ Lemma on_created_relay_l n src cid i Y au ce o q :
     match aget (q_from q) (n_exit n) with
     | None => (n1, [], None)
     | Some eh =>
+        if ahas (q_from q) (n_relay n) then (n1, [], None) else
         (set_relay n1 (aset (q_from q) (mkRoute (q_to q) (mkHop (q_to_peer q) (h_keys eh) None) true)
                         (aset (q_to q) (mkRoute (q_from q) (mkHop (q_peer q) (h_keys eh) None) false) (n_relay n))),
          [RmExit (q_from q); Send (p_addr (q_peer q)) (MExtended (q_from q) (q_ident q) Y au ce)], None)
@@ -144,6 +145,7 @@ Proof.
       * rewrite (on_created_relay_l n src k0 i Y0 au0 ce0 o q Q) in I.
         cbn [step]. rewrite (on_created_relay_l n src k0 i Y0 au0 ce0 o q Q).
         destruct (aget (q_from q) (n_exit n)) as [eh|]; [|destruct I].
+        destruct (ahas (q_from q) (n_relay n)); [destruct I|].
         cbn in I. destruct I as [K|[K|[]]]; [discriminate|]. inversion K; subst.
         exists src, k0, i, o, q. split; [reflexivity|]. split; [exact Q|]. split; [reflexivity|].
         split; [reflexivity|]. split; [reflexivity|]. cbn. apply aget_adel_same.
@@ -189,7 +191,7 @@ Proof.
     + exfalso. destruct (aget i (n_creq n)) as [q0|] eqn:Q.
       * rewrite (on_created_relay_l n src k0 i Y0 au0 ce0 o q0 Q) in H.
         assert (K : aget num (adel i (n_creq n)) = Some q).
-        { destruct (aget (q_from q0) (n_exit n)); exact H. }
+        { destruct (aget (q_from q0) (n_exit n)); [destruct (ahas (q_from q0) (n_relay n))|]; exact H. }
         rewrite aget_adel in K. destruct (num =? i); [discriminate|]. auto.
       * revert H. cbn [handle]. unfold on_created. rewrite Q.
         destruct (aget k0 (n_retry n)) as [r|]; [|apply SAME; reflexivity].
